@@ -45,7 +45,10 @@ def build(P):
             P1 = list(decls) + list(sets) + L[len(decls):]
             P1 += list(reset) + ["SEEK \"r.dat\", %d" % at, "GETRECORD \"r.dat\", %s" % var] + [d.replace("@", "same ") for d in dump]
             P1 += ["CLOSEFILE \"r.dat\""] + list(reset) + ["OPENFILE \"r.dat\" FOR RANDOM", "SEEK \"r.dat\", %d" % at, "GETRECORD \"r.dat\", %s" % var] + [d.replace("@", "reopen ") for d in dump]
-            P1 += ["SEEK \"r.dat\", %d" % (1 if at != 1 else 2), "GETRECORD \"r.dat\", filler", "OUTPUT \"filler \", filler", "CLOSEFILE \"r.dat\""]
+            P1 += ["SEEK \"r.dat\", %d" % (1 if at != 1 else 2), "GETRECORD \"r.dat\", filler", "OUTPUT \"filler \", filler"]
+            # a session that only overwrites (nothing appended): the new value must be what a later session reads
+            P1 += list(reset) + ["SEEK \"r.dat\", %d" % at, "PUTRECORD \"r.dat\", %s" % var, "CLOSEFILE \"r.dat\""] + list(sets)
+            P1 += ["OPENFILE \"r.dat\" FOR RANDOM", "SEEK \"r.dat\", %d" % at, "GETRECORD \"r.dat\", %s" % var] + [d.replace("@", "overwritten ") for d in dump] + ["CLOSEFILE \"r.dat\""]
             progs.append(Case(id=cid, prog=("\n".join(P1) + "\n").encode(), meta=dict(units=[unit], second=dict(decls=decls, reset=reset, var=var, dump=dump, at=at))))
         # all 256 CHAR codes: alone, first / middle / last field of a record
         for code in range(256):
@@ -388,16 +391,16 @@ def build(P):
         names = ["a.txt", "b.txt"]
         alpha = []
         for f in names:
-            alpha += [("open", f, m) for m in ("READ", "WRITE", "APPEND", "RANDOM")] + [("readfile", f), ("writefile", f), ("eof", f), ("seek", f), ("get", f), ("put", f), ("close", f)]
+            alpha += [("open", f, m) for m in ("READ", "WRITE", "APPEND", "RANDOM")] + [("readfile", f), ("writefile", f), ("eof", f), ("seek", f), ("seek", f, 2), ("seek", f, 0), ("seek", f, 7), ("get", f), ("put", f), ("put", f, "r2"), ("close", f)]
         def stmt(op):
             f = op[1]
             if op[0] == "open": return "OPENFILE \"%s\" FOR %s" % (f, op[2])
             if op[0] == "readfile": return "READFILE \"%s\", line" % f
             if op[0] == "writefile": return "WRITEFILE \"%s\", \"w\"" % f
             if op[0] == "eof": return "EOF(\"%s\")" % f
-            if op[0] == "seek": return "SEEK \"%s\", 1" % f
-            if op[0] == "get": return "GETRECORD \"%s\", rec" % f
-            if op[0] == "put": return "PUTRECORD \"%s\", rec" % f
+            if op[0] == "seek": return "SEEK \"%s\", %d" % (f, op[2] if len(op) > 2 else 1)
+            if op[0] == "get": return "GETRECORD \"%s\", line" % f
+            if op[0] == "put": return "PUTRECORD \"%s\", %s" % (f, "rec2" if len(op) > 2 else "rec")
             if op[0] == "close": return "CLOSEFILE \"%s\"" % f
         def simulate(ops, disk):
             """explicit model: handle states and contents; returns list of 'ok'/'err' and final disk"""
@@ -429,10 +432,13 @@ def build(P):
                     disk[f] += b"w\n"; res.append("ok")
                 elif op[0] == "seek":
                     if f not in h or h[f]["mode"] != "RANDOM": res.append("err"); continue
-                    h[f]["cur"] = 0; res.append("ok")
+                    k = op[2] if len(op) > 2 else 1
+                    # a rejected SEEK leaves the handle where it was
+                    if not (1 <= k <= len(h[f]["recs"]) + 1): res.append("err"); continue
+                    h[f]["cur"] = k - 1; res.append("ok")
                 elif op[0] == "put":
                     if f not in h or h[f]["mode"] != "RANDOM": res.append("err"); continue
-                    t = b"STRING 3 rec"
+                    t = b"STRING 4 rec2" if len(op) > 2 else b"STRING 3 rec"
                     if h[f]["cur"] < len(h[f]["recs"]): h[f]["recs"][h[f]["cur"]] = t
                     else: h[f]["recs"].append(t)
                     h[f]["mod"] = True; res.append("ok")
@@ -465,14 +471,14 @@ def build(P):
         for i, h in enumerate(hist):
             pre = {"a.txt": b"one\ntwo\n"} if i % 2 == 0 else {}
             ending = r.choice(["eof", "error", "end"])
-            ents = ["DECLARE line, rec : STRING", "rec <- \"rec\""] + [stmt(op) for op in h]
+            ents = ["DECLARE line, rec, rec2 : STRING", "rec <- \"rec\"\nrec2 <- \"rec2\""] + [stmt(op) for op in h]
             res, disk = simulate(h, dict(pre))
             # REPL session: each op is an entry; the session then ends (end of input): everything must be on disk
             cases.append(repl_case("C16-h%d" % i, ents, files={k: ("f", v) for k, v in pre.items()}, meta=dict(units=["h%d" % i], expect=res, disk={k: v.decode("latin1") for k, v in disk.items()}, noshrink=True)))
             if i % 4 == 0:
                 # the same in file mode, ended by a runtime error or by the end of the program: legal prefix only
                 legal = [op for op, rr_ in zip(h, res) if rr_ == "ok"]
-                L = ["DECLARE line, rec : STRING", "rec <- \"rec\""] + [stmt(op) if op[0] != "eof" else "OUTPUT " + stmt(op) for op in legal]
+                L = ["DECLARE line, rec, rec2 : STRING", "rec <- \"rec\"", "rec2 <- \"rec2\""] + [stmt(op) if op[0] != "eof" else "OUTPUT " + stmt(op) for op in legal]
                 if ending == "error": L.append("OUTPUT 1 DIV 0")
                 res2, disk2 = simulate(legal, dict(pre))
                 cases.append(Case(id="C16-f%d" % i, prog=("\n".join(L) + "\n").encode(), files={k: ("f", v) for k, v in pre.items()}, meta=dict(units=["f%d" % i], disk={k: v.decode("latin1") for k, v in disk2.items()})))
